@@ -388,7 +388,7 @@ def finish(prop, tier, seed, results, t0, error=None, extra=None, finite=None):
             lines.append(f"VIOLATION property={prop} replay={path} obligation={oname}")
             code = EXIT_VIOLATION
         else:
-            undecided.append([oname, f"writes module-level state {g}: independence from earlier calls does not follow from the per-call contract, and the native search found no history-dependent input (see {path})"])
+            undecided.append([oname, f"state outside the contract ({g}) is read or written: independence from earlier calls does not follow from the per-call contract, and the native search found no history-dependent input (see {path})"])
     for n, ok, w in finite or []:
         if not ok:
             rec = {"name": f"{prop}.finite.{n}", "kind": "finite", "backend": "exhaustive-evaluation", "result": "sat", "time": 0.0, "meta": {"witness": w}, "model": {"witness": w}, "goal": n}
